@@ -171,6 +171,14 @@ type ext4Run struct {
 }
 
 func (x *ext4Run) want(clause string) bool { return strings.HasPrefix(clause, x.prop+".") }
+
+// pfx is the clause prefix of the tree/attribute comparison: C04 owns it, C19 reuses it.
+func (x *ext4Run) pfx() string {
+	if x.prop == "C19" {
+		return "C19."
+	}
+	return "C04."
+}
 func (x *ext4Run) viol(clause, detail string) *core.Violation {
 	return &core.Violation{Clause: clause, Trigger: x.trig, Locus: x.locus, Detail: detail, OpIndex: x.opIdx}
 }
@@ -231,7 +239,7 @@ func (x *ext4Run) compare(fs *ext4.FileSystem, phase string) *core.Violation {
 			return v
 		}
 		if err != nil {
-			return x.viol("C04."+phase+"listing", fmt.Sprintf("ReadDir(%q) failed: %v", vpath(p), err))
+			return x.viol(x.pfx()+phase+"listing", fmt.Sprintf("ReadDir(%q) failed: %v", vpath(p), err))
 		}
 		got := map[string]bool{}
 		for _, e := range ents {
@@ -264,7 +272,7 @@ func (x *ext4Run) compare(fs *ext4.FileSystem, phase string) *core.Violation {
 			wantSet[cn.name+"|"+k] = true
 		}
 		if !sameSet(got, wantSet) {
-			return x.viol("C04."+phase+"listing", fmt.Sprintf("directory %q lists %v, reference tree has %v", p, keys(got), keys(wantSet)))
+			return x.viol(x.pfx()+phase+"listing", fmt.Sprintf("directory %q lists %v, reference tree has %v", p, keys(got), keys(wantSet)))
 		}
 	}
 	for _, p := range m.paths() {
@@ -280,7 +288,7 @@ func (x *ext4Run) compare(fs *ext4.FileSystem, phase string) *core.Violation {
 				return v
 			}
 			if err != nil || tgt != a.link {
-				return x.viol("C04."+phase+"link-target", fmt.Sprintf("ReadLink(%q) = %q, %v; reference target has %d bytes %q", p, clip(tgt, 80), err, len(a.link), clip(a.link, 80)))
+				return x.viol(x.pfx()+phase+"link-target", fmt.Sprintf("ReadLink(%q) = %q, %v; reference target has %d bytes %q", p, clip(tgt, 80), err, len(a.link), clip(a.link, 80)))
 			}
 			continue
 		}
@@ -291,10 +299,10 @@ func (x *ext4Run) compare(fs *ext4.FileSystem, phase string) *core.Violation {
 				return v
 			}
 			if err != nil {
-				return x.viol("C04."+phase+"read-own-file", fmt.Sprintf("ReadFile(%q) of a file the library wrote failed: %v", p, err))
+				return x.viol(x.pfx()+phase+"read-own-file", fmt.Sprintf("ReadFile(%q) of a file the library wrote failed: %v", p, err))
 			}
 			if !bytes.Equal(data, n.data) {
-				return x.viol("C04."+phase+"content", fmt.Sprintf("%q: %s", p, diffDesc(data, n.data)))
+				return x.viol(x.pfx()+phase+"content", fmt.Sprintf("%q: %s", p, diffDesc(data, n.data)))
 			}
 		}
 		if a != nil && (a.attrKnown || a.timesKnown) {
@@ -304,25 +312,25 @@ func (x *ext4Run) compare(fs *ext4.FileSystem, phase string) *core.Violation {
 				return v
 			}
 			if err != nil {
-				return x.viol("C04."+phase+"stat", fmt.Sprintf("Stat(%q): %v", p, err))
+				return x.viol(x.pfx()+phase+"stat", fmt.Sprintf("Stat(%q): %v", p, err))
 			}
 			st, _ := fi.Sys().(*ext4.StatT)
 			if a.attrKnown {
 				gotMode := fi.Mode() & (os.ModePerm | os.ModeSetuid | os.ModeSetgid | os.ModeSticky)
 				if a.mode != 1<<31 && gotMode != a.mode {
-					return x.viol("C04."+phase+"mode", fmt.Sprintf("%q: mode %v, reference %v", p, gotMode, a.mode))
+					return x.viol(x.pfx()+phase+"mode", fmt.Sprintf("%q: mode %v, reference %v", p, gotMode, a.mode))
 				}
 				if st != nil && a.uid != 1<<32-1 && (st.UID != a.uid || st.GID != a.gid) {
-					return x.viol("C04."+phase+"owner", fmt.Sprintf("%q: uid:gid %d:%d, reference %d:%d", p, st.UID, st.GID, a.uid, a.gid))
+					return x.viol(x.pfx()+phase+"owner", fmt.Sprintf("%q: uid:gid %d:%d, reference %d:%d", p, st.UID, st.GID, a.uid, a.gid))
 				}
 			}
 			if a.timesKnown && st != nil {
 				if !fi.ModTime().Equal(a.mtime) || !st.AccessTime.Equal(a.atime) || !st.CreateTime.Equal(a.ct) {
-					return x.viol("C04."+phase+"times", fmt.Sprintf("%q: mtime %v atime %v crtime %v, reference %v %v %v", p, fi.ModTime().UTC(), st.AccessTime.UTC(), st.CreateTime.UTC(), a.mtime.UTC(), a.atime.UTC(), a.ct.UTC()))
+					return x.viol(x.pfx()+phase+"times", fmt.Sprintf("%q: mtime %v atime %v crtime %v, reference %v %v %v", p, fi.ModTime().UTC(), st.AccessTime.UTC(), st.CreateTime.UTC(), a.mtime.UTC(), a.atime.UTC(), a.ct.UTC()))
 				}
 			}
 			if n.dir != fi.IsDir() {
-				return x.viol("C04."+phase+"kind", fmt.Sprintf("%q: IsDir=%v, reference %v", p, fi.IsDir(), n.dir))
+				return x.viol(x.pfx()+phase+"kind", fmt.Sprintf("%q: IsDir=%v, reference %v", p, fi.IsDir(), n.dir))
 			}
 		}
 	}
@@ -1026,7 +1034,7 @@ func execExt4History(t *core.Trace, prop string) (*core.Result, *simdisk.Disk) {
 		if v == nil && x.want("C05.x") && (i == len(t.Ops)-1 || i%4 == 3) {
 			v = x.debugfsCompare()
 		}
-		if v == nil && x.want("C04.x") {
+		if v == nil && (x.want("C04.x") || x.want("C19.x")) {
 			phase := ""
 			if x.lastErr {
 				phase = "after-error."
@@ -1039,7 +1047,7 @@ func execExt4History(t *core.Trace, prop string) (*core.Result, *simdisk.Disk) {
 				if pv := x.call(func() { nfs, err = ext4.Read(clone, size, start, 512) }); pv != nil {
 					v = pv
 				} else if err != nil {
-					v = x.viol("C04.reopen.open", "re-opening the image from its bytes failed: "+err.Error())
+					v = x.viol(x.pfx()+"reopen.open", "re-opening the image from its bytes failed: "+err.Error())
 				} else {
 					v = x.compare(nfs, "reopen.")
 				}
